@@ -43,6 +43,8 @@ ASSUMPTIONS = [
     "the canonical encoding itself (which embedded names are lower-cased) belongs to C15; here only that ==, hash and "
     "< are functions of it",
     "TSIG/TKEY/OPT have no specimen in the field-type probe (slot rebinding is probed for every class)",
+    "RRset owner name / deleting (RRset.__eq__, match, full_match, _clone), the module-level constructors, Rdata.replace, "
+    "copy/pickle and dns.immutable.constify are checked by the direct oracle only (not modelled)",
 ]
 
 TTLS = [0, 1, 5, 60, 300, 3600, 2 ** 31 - 1]
